@@ -55,6 +55,10 @@ def gen_original(g, name, prefix, others, P=None, p_clock=0.0):
             acts.append({"k": "raw", "ctx": None, "text": text})
         else:
             acts.append({"k": "raw", "ctx": g.choice(["enter", "recur"]), "text": "done me"})
+        if i == n - 1 and side.random() < 0.3:
+            # an ordinary (not cloned) auxiliary framer named by the original: it belongs to the house, not to any clone, and
+            # must survive the razing of a clone that uses it
+            acts.append({"k": "raw", "ctx": None, "text": "aux pa0"})
         if i > 0 and others and side.random() < 0.3 and any(a["k"] == "clone" for a in frames[0]["acts"]):
             # a raze inside the original aimed at its own first frame, which holds build-time clones: they are not razeable
             # (only clones made by 'rear' are), however the original itself came to run (cloned at build time or reared)
@@ -175,7 +179,11 @@ def build_programs(plan):
         twin_main = plan["main"]
 
     def tail(ticks):
-        return [{"name": "zenv", "sched": "active", "order": "front", "period": None, "first": "zenv0",
+        extra = []
+        if any(a.get("text") == "aux pa0" for o in plan["origs"] for f in o["frames"] for a in f["acts"]):
+            extra = [{"name": "pa0", "sched": "aux", "order": None, "period": None, "first": "pa0a",
+                      "frames": [{"name": "pa0a", "over": None, "acts": [{"k": "rec", "ctx": c, "tag": "pa0a.%s" % c} for c in ("enter", "recur", "exit")]}]}]
+        return extra + [{"name": "zenv", "sched": "active", "order": "front", "period": None, "first": "zenv0",
                  "frames": [{"name": "zenv0", "over": None, "acts": [{"k": "env", "ctx": "recur", "eid": 0}]}]},
                 {"name": "zclk", "sched": "active", "order": "back", "period": None, "first": "zclk0",
                  "frames": [{"name": "zclk0", "over": None, "acts": [{"k": "repeat", "n": ticks}]},
@@ -235,14 +243,16 @@ def watch_rear_raze(res):
                         def action(**kw):
                             fr = kw["frame"]
                             before = [a.name for a in fr.auxes]
+                            names0 = set(framing.Framer.Names)
                             r = inner(**kw)
                             after = [a.name for a in fr.auxes]
+                            st.unregistered = sorted(names0 - set(framing.Framer.Names))
                             gone = [n for n in before if n not in after]
                             st.add(actor.store.stamp, "rear" if isinstance(actor, acting.Rearer) else "raze", fr.name,
                                    kw.get("who") or kw["original"].name, before, after,
                                    [n for n in gone if n in framing.Framer.Names or n.split("_", 1)[-1] in kw["framer"].auxes] +
                                    sorted(n for n in framing.Framer.Names if any(n.startswith(x + "_") for x in gone)),   # clones nested in a razed clone
-                                   [(a.name, bool(a.insular), bool(a.razeable)) for a in fr.auxes])
+                                   [(a.name, bool(a.insular), bool(a.razeable)) for a in fr.auxes], st.unregistered)
                             return r
                         return action
                     actor.action = make(actor, actor.action)
@@ -441,6 +451,12 @@ class C12(Check):
                     return
                 if still:
                     out.violate("raze-name", "the name of a razed clone (or of a clone nested in it) is still registered", "tick %d: %r\n%s" % (tick, still, sa))
+                    return
+                unreg = e[9] if len(e) > 9 else []
+                stray = [n for n in unreg if not any(n == g or n.startswith(g + "_") for g in gone)]
+                if stray:
+                    out.violate("raze-collateral", "raze unregistered a framer that is neither a razed clone nor a clone nested in one",
+                                "tick %d raze %s in %s removed %r from the framer registry (razed: %r)\n%s" % (tick, who, host, stray, gone, sa))
                     return
                 if want:
                     out.probe("razed-" + who)
